@@ -4,6 +4,8 @@ every board size `cfg.rows × cfg.cols` (square or not), every state satisfying 
 every action and every fruit draw `d`; `rnd` is the float32 rounding of the `norm_body_state` division.
 -/
 import JumanjiModel.Env.Snake.Lemmas
+import JumanjiModel.Env.Snake.BoundsLemmas
+import JumanjiModel.Prim.Float
 open Jm Jx Snake
 
 namespace Props.C04
@@ -162,3 +164,41 @@ theorem snake_obs_planes (rnd : Rat → Rat) (cfg : Cfg) (t : State)
     (hm : t.actionMask = legalMask cfg t) :
     stateToObs rnd t = observe rnd cfg t := Snake.obs_eq rnd cfg t hs hbody htail hh hfr hm
 end Props.C12
+
+namespace Props.C01
+/-- the reset observation (any head draw, any fruit draw, even inadmissible ones) has every leaf inside the
+interval `obsBounds cfg` lists for it: the five planes in `[0, 1]`, `step_count = 0 ≤ time_limit`, mask 0..1.
+`RndKeeps01 rnd`: the float32 rounding of `body_state / max(1, max)` maps `[0, 1]` into `[0, 1]`. -/
+theorem snake_reset_obs_in_bounds (rnd : Rat → Rat) (hrnd : RndKeeps01 rnd) (cfg : Cfg) (hr hc : Nat) (d : Nat)
+    (htl : 0 ≤ cfg.timeLimit) : ObsInBounds cfg (reset rnd cfg hr hc d).2.obs :=
+  Snake.reset_obs_in_bounds rnd hrnd cfg hr hc d htl
+
+/-- every step taken from a consistent state of a running episode (`step_count < time_limit`; `0 ≤ step_count`
+is part of `Consistent`) emits an observation inside `obsBounds cfg` — for EVERY action value (legal, illegal,
+out of range) and every fruit draw, including the terminal step, where `step_count = time_limit`
+(the point the declared `DiscreteArray(time_limit)` of the original tree excluded) -/
+theorem snake_step_obs_in_bounds (rnd : Rat → Rat) (hrnd : RndKeeps01 rnd) (cfg : Cfg) (s : State) (a : Int)
+    (d : Nat) (hC : Consistent cfg s) (h1 : s.stepCount < cfg.timeLimit) :
+    ObsInBounds cfg (step rnd cfg s a d).2.obs := Snake.step_obs_in_bounds rnd hrnd cfg s a d hC h1
+
+/-- the same from the weaker invariant `NonNeg` (board numbers, length, counter non-negative), which — unlike
+`Consistent` — EVERY step preserves, so the bounds hold along all trajectories, also after an invalid move -/
+theorem snake_step_obs_in_bounds_nonNeg (rnd : Rat → Rat) (hrnd : RndKeeps01 rnd) (cfg : Cfg) (s : State)
+    (a : Int) (d : Nat) (hn : NonNeg s) (h1 : s.stepCount < cfg.timeLimit) :
+    ObsInBounds cfg (step rnd cfg s a d).2.obs ∧ NonNeg (step rnd cfg s a d).1 :=
+  ⟨Snake.step_obs_in_bounds_nonNeg rnd hrnd cfg s a d hn h1, Snake.step_nonNeg rnd cfg s a d hn⟩
+
+/-- `NonNeg` holds after reset and in every consistent state -/
+theorem snake_nonNeg (rnd : Rat → Rat) (cfg : Cfg) (hr hc : Nat) (d : Nat) (s : State) :
+    NonNeg (reset rnd cfg hr hc d).1 ∧ (Consistent cfg s → NonNeg s) :=
+  ⟨Snake.reset_nonNeg rnd cfg hr hc d, Snake.nonNeg_of_consistent⟩
+
+/-- any monotone rounding that fixes 0 and 1 satisfies the rounding hypothesis -/
+theorem snake_rndKeeps01_of_mono (rnd : Rat → Rat) (hm : ∀ x y, x ≤ y → rnd x ≤ rnd y) (h0 : rnd 0 = 0)
+    (h1 : rnd 1 = 1) : RndKeeps01 rnd := fun x hx0 hx1 => ⟨h0 ▸ hm 0 x hx0, h1 ▸ hm x 1 hx1⟩
+
+example : RndKeeps01 id := fun _ h0 h1 => ⟨h0, h1⟩
+example : Jx.roundF32 0 = 0 ∧ Jx.roundF32 1 = 1 := by decide +kernel
+/-- the bound on `step_count` is attained: 2×3 board, limit 1, one step -/
+example : (step id ⟨2, 3, 1⟩ (reset id ⟨2, 3, 1⟩ 0 0 5).1 1 0).2.obs.stepCount = 1 := by decide +kernel
+end Props.C01
